@@ -2,25 +2,37 @@
 Helper lemmas for C11: the invariant of clean schedules and its preservation by every action.
 -/
 import CV.Proofs.StreamPub
-import CV.Proofs.StreamCat
+import CV.Proofs.StreamNamed
 namespace CV.Stream
 
 /-- the events of a write describe exactly what the write does to every query -/
 def Faithful (c : Cat) (idx : Nat) (w : Write) : Prop :=
   ∀ k, ViewEq (query k (applyWrite idx c w).1) (applyEvs (query k c) (evsFor k (applyWrite idx c w).2.1))
 
+/-- The invariant of clean schedules. A subscriber with a restricted token is described through an
+    unfiltered TWIN materializer (`Rel`): the twin consumes the shared items themselves, and the
+    existing simulation predicate speaks about the twin; the subscriber's own view is the
+    ACL-filter of the twin's. For a token that may read everything the twin is the materializer. -/
 structure Inv (y : Sys) : Prop where
   wf    : WF y.cat
   hok   : ∀ c ∈ y.clients, HOk c.m
-  exact : ∀ c ∈ y.clients, Exact c.m
-  sim   : ∀ c ∈ y.clients, c.sub = .opened →
-            Sim c.m (c.inbox ++ queueItems c.key y.queue) (query c.key y.cat)
+  exact : ∀ c ∈ y.clients, FExact c.authz c.key c.m
+  sim   : ∀ c ∈ y.clients, c.sub = .opened → ∃ mu, Rel c.authz c.key c.m mu ∧
+            Sim mu (c.inbox ++ queueItems c.key y.queue) (query c.key y.cat)
   cache : ∀ e ∈ y.cache, ∀ e0, Sim ⟨.snap [], [], 0, e0⟩ (e.steps ++ queueItems e.key y.queue) (query e.key y.cat)
   cbuf  : ∀ e ∈ y.cache, hasBuf y e.key = true
   ids   : (y.clients.map (·.id)).Nodup
+  az    : ∀ c ∈ y.clients, AuthzOk c.authz c.key
+  inam  : ∀ c ∈ y.clients, c.sub = .opened → ∀ st ∈ c.inbox, StepNamed c.key st
+  cnam  : ∀ e ∈ y.cache, ∀ st ∈ e.steps, StepNamed e.key st
+  qnam  : ∀ b ∈ y.queue, ∀ e ∈ b.evs, nameOk e.key e.id e.val
 
 theorem Inv.init (ttl : Bool) : Inv (Sys.init ttl) := by
-  refine ⟨WF.empty, ?_, ?_, ?_, ?_, ?_, ?_⟩ <;> simp [Sys.init]
+  refine ⟨WF.empty, ?_, ?_, ?_, ?_, ?_, ?_, ?_, ?_, ?_, ?_⟩ <;> simp [Sys.init]
+
+/-- the item a queued batch becomes for key `k` is named for `k` -/
+theorem stepNamed_mkItem {k : Key} {b : Batch} (h : ∀ e ∈ b.evs, nameOk e.key e.id e.val) :
+    StepNamed k (.item (mkItem k b)) := evsFor_named h
 
 /-! ### commit -/
 
@@ -48,11 +60,18 @@ theorem sim_commit {m : Mat} {l : List Step} {k : Key} {c : Cat} {q : List Batch
 theorem Inv.commit {y : Sys} (h : Inv y) (idx : Nat) (w : Write) (hidx : idx ≠ 0) (hf : Faithful y.cat idx w) :
     Inv (commit y idx w) := by
   unfold CV.Stream.commit
-  refine ⟨applyWrite_wf idx w h.wf, h.hok, h.exact, ?_, ?_, h.cbuf, h.ids⟩
+  refine ⟨applyWrite_wf idx w h.wf, h.hok, h.exact, ?_, ?_, h.cbuf, h.ids, h.az, h.inam, h.cnam, ?_⟩
   · intro c hc ho
-    exact sim_commit idx w hidx hf (h.sim c hc ho)
+    obtain ⟨mu, hr, hs⟩ := h.sim c hc ho
+    exact ⟨mu, hr, sim_commit idx w hidx hf hs⟩
   · intro e he e0
     exact sim_commit idx w hidx hf (h.cache e he e0)
+  · intro b hb
+    rcases List.mem_append.mp hb with hb | hb
+    · exact h.qnam b hb
+    · simp only [List.mem_singleton] at hb
+      subst hb
+      exact applyWrite_named idx y.cat w
 
 /-! ### publishOne -/
 
@@ -64,6 +83,9 @@ theorem closeAcl_attached (b : Batch) (c : Client) : attached (closeAcl b c) = a
   split
   · rename_i h; simp [h.1]
   · rfl
+
+theorem closeAcl_authz (b : Batch) (c : Client) : (closeAcl b c).authz = c.authz := by
+  unfold closeAcl; split <;> rfl
 
 theorem closeAcl_fields (b : Batch) (c : Client) :
     (closeAcl b c).m = c.m ∧ (closeAcl b c).key = c.key ∧ (closeAcl b c).id = c.id ∧
@@ -112,35 +134,39 @@ theorem Inv.publishOne {y : Sys} (h : Inv y) : Inv (publishOne y) := by
     have hfrom : ∀ c' ∈ ((keysOf b.evs).foldl (publishKey b)
         { y with queue := rest, clients := y.clients.map (closeAcl b) }).clients,
         ∃ c ∈ y.clients, c'.m = c.m ∧ c'.key = c.key ∧ c'.id = c.id ∧ (c'.sub = .opened → c.sub = .opened) ∧
-          c'.inbox = (if c.key ∈ keysOf b.evs ∧ attached c then c.inbox ++ [Step.item (mkItem c.key b)] else c.inbox) := by
+          c'.inbox = (if c.key ∈ keysOf b.evs ∧ attached c then c.inbox ++ [Step.item (mkItem c.key b)] else c.inbox) ∧
+          c'.authz = c.authz := by
       intro c' hc'
       rw [hcl] at hc'
       simp only [List.map_map, List.mem_map, Function.comp_def] at hc'
       obtain ⟨c, hc, rfl⟩ := hc'
       refine ⟨c, hc, ?_⟩
       obtain ⟨f1, f2, f3, f4, f5⟩ := closeAcl_fields b c
+      have f6 := closeAcl_authz b c
       have fa := closeAcl_attached b c
       by_cases hk : c.key ∈ keysOf b.evs ∧ attached c
       · have hk' : (closeAcl b c).key ∈ keysOf b.evs ∧ attached (closeAcl b c) := by rw [f2, fa]; exact hk
-        simp [hk, hk', f1, f2, f3, f4]
+        simp [hk, hk', f1, f2, f3, f4, f6]
         exact f5
       · have hk' : ¬ ((closeAcl b c).key ∈ keysOf b.evs ∧ attached (closeAcl b c)) := by rw [f2, fa]; exact hk
         simp only [hk', hk, ↓reduceIte]
-        exact ⟨f1, f2, f3, f5, f4⟩
-    refine ⟨by rw [hcat]; exact h.wf, ?_, ?_, ?_, ?_, ?_, ?_⟩
+        exact ⟨f1, f2, f3, f5, f4, f6⟩
+    have hbq : b ∈ y.queue := by rw [hq]; exact List.mem_cons_self
+    refine ⟨by rw [hcat]; exact h.wf, ?_, ?_, ?_, ?_, ?_, ?_, ?_, ?_, ?_, ?_⟩
     · intro c' hc'
       obtain ⟨c, hc, hm, -⟩ := hfrom c' hc'
       rw [hm]; exact h.hok c hc
     · intro c' hc'
-      obtain ⟨c, hc, hm, -⟩ := hfrom c' hc'
-      rw [hm]; exact h.exact c hc
+      obtain ⟨c, hc, hm, hk, -, -, -, ha⟩ := hfrom c' hc'
+      rw [hm, hk, ha]; exact h.exact c hc
     · intro c' hc' ho
-      obtain ⟨c, hc, hm, hk, -, hs, hi⟩ := hfrom c' hc'
+      obtain ⟨c, hc, hm, hk, -, hs, hi, ha⟩ := hfrom c' hc'
       have hop := hs ho
       have hat : attached c = true := by simp [attached, hop]
-      have := h.sim c hc hop
+      obtain ⟨mu, hr, this⟩ := h.sim c hc hop
       rw [hq] at this
-      rw [hm, hk, hi, hqu, hcat]
+      refine ⟨mu, by rw [hm, hk, ha]; exact hr, ?_⟩
+      rw [hk, hi, hqu, hcat]
       simp only [hat, and_true]
       rw [pending_publish]
       exact this
@@ -181,6 +207,37 @@ theorem Inv.publishOne {y : Sys} (h : Inv y) : Inv (publishOne y) := by
         have f3 := (closeAcl_fields b c).2.2.1
         split <;> simp [f3]
       rw [this]; exact h.ids
+    · intro c' hc'
+      obtain ⟨c, hc, -, hk, -, -, -, ha⟩ := hfrom c' hc'
+      rw [hk, ha]; exact h.az c hc
+    · intro c' hc' ho st hst
+      obtain ⟨c, hc, -, hk, -, hs, hi, -⟩ := hfrom c' hc'
+      rw [hk]
+      rw [hi] at hst
+      split at hst
+      · rcases List.mem_append.mp hst with hst | hst
+        · exact h.inam c hc (hs ho) st hst
+        · simp only [List.mem_singleton] at hst
+          subst hst
+          exact stepNamed_mkItem (h.qnam b hbq)
+      · exact h.inam c hc (hs ho) st hst
+    · intro e' he' st hst
+      rw [hca] at he'
+      obtain ⟨e, he, rfl⟩ := List.mem_map.mp he'
+      by_cases hcond : e.key ∈ keysOf b.evs ∧
+          hasBuf { y with queue := rest, clients := y.clients.map (closeAcl b) } e.key = true
+      · rw [if_pos hcond] at hst ⊢
+        rw [steps_append_tail] at hst
+        rcases List.mem_append.mp hst with hst | hst
+        · exact h.cnam e he st hst
+        · simp only [List.mem_singleton] at hst
+          subst hst
+          exact stepNamed_mkItem (k := e.key) (h.qnam b hbq)
+      · rw [if_neg hcond] at hst ⊢
+        exact h.cnam e he st hst
+    · intro b' hb'
+      rw [hqu] at hb'
+      exact h.qnam b' (by rw [hq]; exact List.mem_cons_of_mem _ hb')
 
 /-! ### setClient -/
 
@@ -286,18 +343,17 @@ theorem hasBuf_setClient_mono {y : Sys} (hn : (y.clients.map (·.id)).Nodup) {c 
 
 /-! ### next -/
 
-theorem HOk.reset (m : Mat) : HOk m.reset :=
-  ⟨by simp [Mat.reset], fun _ => rfl, by intro h; simp [Mat.reset] at h, fun _ _ => rfl⟩
-
-/-- generic step: client `c` is replaced by `c'` with the same id, key and subscription state,
-    nothing else changes -/
+/-- generic step: client `c` is replaced by `c'` with the same id, key, authorizer and subscription
+    state, nothing else changes -/
 theorem Inv.replace {y : Sys} (h : Inv y) {c c' : Client} (hc : c ∈ y.clients)
-    (e : c'.id = c.id) (hk : c'.key = c.key) (hs : c'.sub = c.sub)
-    (hok : HOk c'.m) (hex : Exact c'.m)
-    (hsim : c'.sub = .opened → Sim c'.m (c'.inbox ++ queueItems c'.key y.queue) (query c'.key y.cat)) :
+    (e : c'.id = c.id) (hk : c'.key = c.key) (hs : c'.sub = c.sub) (ha : c'.authz = c.authz)
+    (hok : HOk c'.m) (hex : FExact c'.authz c'.key c'.m)
+    (hsim : c'.sub = .opened → ∃ mu, Rel c'.authz c'.key c'.m mu ∧
+      Sim mu (c'.inbox ++ queueItems c'.key y.queue) (query c'.key y.cat))
+    (hin : c'.sub = .opened → ∀ st ∈ c'.inbox, StepNamed c'.key st) :
     Inv (setClient y c') := by
   have hsh := setClient_shape h.ids hc e hk hs
-  refine ⟨h.wf, ?_, ?_, ?_, h.cache, ?_, by rw [setClient_ids]; exact h.ids⟩
+  refine ⟨h.wf, ?_, ?_, ?_, h.cache, ?_, by rw [setClient_ids]; exact h.ids, ?_, ?_, h.cnam, h.qnam⟩
   · intro d hd
     rcases mem_setClient hd with rfl | ⟨hd', -⟩
     · exact hok
@@ -313,9 +369,37 @@ theorem Inv.replace {y : Sys} (h : Inv y) {c c' : Client} (hc : c ∈ y.clients)
   · intro e' he'
     have : hasBuf (setClient y c') e'.key = hasBuf y e'.key := hasBuf_congr hsh e'.key
     rw [this]; exact h.cbuf e' he'
+  · intro d hd
+    rcases mem_setClient hd with rfl | ⟨hd', -⟩
+    · rw [ha, hk]; exact h.az c hc
+    · exact h.az d hd'
+  · intro d hd ho
+    rcases mem_setClient hd with rfl | ⟨hd', -⟩
+    · exact hin ho
+    · exact h.inam d hd' ho
 
-theorem Inv.next {y : Sys} (h : Inv y) (id : Nat) (hz : ∀ c, getClient y id = some c → c.authz = .all) :
-    Inv (next y id).1 := by
+/-- what consuming the head of the inbox does to a subscriber (filtered or not) and its twin -/
+theorem Inv.consume {y : Sys} (h : Inv y) {c : Client} (hc : c ∈ y.clients) (hsub : c.sub = .opened)
+    {st0 : Step} {rest : List Step} (hin : c.inbox = st0 :: rest) :
+    match visible c.authz c.key.topic st0 with
+    | none => ∃ mu, Rel c.authz c.key c.m mu ∧ Sim mu (rest ++ queueItems c.key y.queue) (query c.key y.cat)
+    | some st => HOk (handle c.m st) ∧ FExact c.authz c.key (handle c.m st) ∧
+        ∃ mu, Rel c.authz c.key (handle c.m st) mu ∧ Sim mu (rest ++ queueItems c.key y.queue) (query c.key y.cat) := by
+  obtain ⟨mu, hr, hs⟩ := h.sim c hc hsub
+  rw [hin] at hs
+  obtain ⟨hku, hexu, hrest⟩ := hs
+  have hun : StepUniform c.authz c.key st0 :=
+    stepUniform_of_named (h.az c hc) (h.inam c hc hsub st0 (by rw [hin]; exact List.mem_cons_self))
+  have := Rel.step st0 hr (h.hok c hc) hku hrest.hok hexu hun
+  cases hv : visible c.authz c.key.topic st0 with
+  | none =>
+    rw [hv] at this
+    exact ⟨_, this, hrest⟩
+  | some st =>
+    rw [hv] at this
+    exact ⟨this.2.1, this.2.2, _, this.1, hrest⟩
+
+theorem Inv.next {y : Sys} (h : Inv y) (id : Nat) : Inv (next y id).1 := by
   unfold CV.Stream.next CV.Stream.nextWith
   cases hg : getClient y id with
   | none => exact h
@@ -328,43 +412,55 @@ theorem Inv.next {y : Sys} (h : Inv y) (id : Nat) (hz : ∀ c, getClient y id = 
       simp only
       by_cases hr : c.rpc
       · simp only [hr, ↓reduceIte]
-        exact h.replace hc rfl rfl hsub.symm (HOk.reset _) (by intro hi; simp [Mat.reset] at hi)
-          (by intro ho; simp at ho)
+        exact h.replace hc rfl rfl hsub.symm rfl (HOk.reset _) (by intro hi; simp [Mat.reset] at hi)
+          (by intro ho; simp at ho) (by intro ho; simp at ho)
       · simp only [hr]
-        exact h.replace hc rfl rfl rfl (h.hok c hc) (h.exact c hc) (fun ho => h.sim c hc ho)
+        exact h.replace hc rfl rfl rfl rfl (h.hok c hc) (h.exact c hc) (fun ho => h.sim c hc ho)
+          (fun ho => h.inam c hc ho)
     | acl =>
       simp only
       by_cases hr : c.rpc
       · simp only [hr, ↓reduceIte]
-        exact h.replace hc rfl rfl hsub.symm (HOk.reset _) (by intro hi; simp [Mat.reset] at hi)
-          (by intro ho; simp at ho)
+        exact h.replace hc rfl rfl hsub.symm rfl (HOk.reset _) (by intro hi; simp [Mat.reset] at hi)
+          (by intro ho; simp at ho) (by intro ho; simp at ho)
       · simp only [hr]
-        exact h.replace hc rfl rfl rfl (h.hok c hc) (h.exact c hc) (fun ho => h.sim c hc ho)
+        exact h.replace hc rfl rfl rfl rfl (h.hok c hc) (h.exact c hc) (fun ho => h.sim c hc ho)
+          (fun ho => h.inam c hc ho)
     | opened =>
       simp only
       cases hin : c.inbox with
       | nil => exact h
-      | cons st rest =>
-        simp only [hz c hg, visible_all]
-        have hs := h.sim c hc hsub
-        rw [hin] at hs
-        obtain ⟨-, hex, hrest⟩ := hs
-        cases hidx : stepIdx st with
+      | cons st0 rest =>
+        simp only
+        have hcons := h.consume hc hsub hin
+        have hrestn : ∀ s' ∈ rest, StepNamed c.key s' := fun s' hs' =>
+          h.inam c hc hsub s' (by rw [hin]; exact List.mem_cons_of_mem _ hs')
+        cases hv : visible c.authz c.key.topic st0 with
         | none =>
+          rw [hv] at hcons
           simp only
-          exact h.replace hc rfl rfl hsub.symm hrest.hok hex (fun _ => hrest)
-        | some i =>
+          exact h.replace hc rfl rfl hsub.symm rfl (h.hok c hc) (h.exact c hc) (fun _ => hcons) (fun _ => hrestn)
+        | some st =>
+          rw [hv] at hcons
+          obtain ⟨hk', hex', htw⟩ := hcons
           simp only
-          exact h.replace hc rfl rfl hsub.symm hrest.hok hex (fun _ => hrest)
+          cases hidx : stepIdx st with
+          | none =>
+            simp only
+            exact h.replace hc rfl rfl hsub.symm rfl hk' hex' (fun _ => htw) (fun _ => hrestn)
+          | some i =>
+            simp only
+            exact h.replace hc rfl rfl hsub.symm rfl hk' hex' (fun _ => htw) (fun _ => hrestn)
 
 /-! ### unsub, expire, addClient, restore -/
 
 theorem Inv.expire {y : Sys} (h : Inv y) : Inv (expire y) := by
   unfold CV.Stream.expire
-  exact ⟨h.wf, h.hok, h.exact, h.sim, (by intro e he; cases he), (by intro e he; cases he), h.ids⟩
+  exact ⟨h.wf, h.hok, h.exact, h.sim, (by intro e he; cases he), (by intro e he; cases he), h.ids, h.az, h.inam,
+    (by intro e he; cases he), h.qnam⟩
 
-theorem Inv.addClient {y : Sys} (h : Inv y) (id : Nat) (k : Key) (t : String) (r : Bool) (a : Authz) :
-    Inv (addClient y id k t r a) := by
+theorem Inv.addClient {y : Sys} (h : Inv y) (id : Nat) (k : Key) (t : String) (r : Bool) (a : Authz)
+    (hak : AuthzOk a k) : Inv (addClient y id k t r a) := by
   unfold CV.Stream.addClient
   cases hg : getClient y id with
   | some c => simpa using h
@@ -372,7 +468,16 @@ theorem Inv.addClient {y : Sys} (h : Inv y) (id : Nat) (k : Key) (t : String) (r
     simp only [Option.isSome_none, Bool.false_eq_true, ↓reduceIte]
     have hnew : HOk (⟨.snap [], [], 0, []⟩ : Mat) :=
       ⟨by simp, fun _ => rfl, by intro hh; simp at hh, fun _ _ => rfl⟩
-    refine ⟨h.wf, ?_, ?_, ?_, h.cache, ?_, ?_⟩
+    refine ⟨h.wf, ?_, ?_, ?_, h.cache, ?_, ?_, ?_, ?_, h.cnam, h.qnam⟩
+    rotate_left 5
+    · intro c hc
+      rcases List.mem_append.mp hc with hc | hc
+      · exact h.az c hc
+      · simp only [List.mem_singleton] at hc; subst hc; exact hak
+    · intro c hc ho
+      rcases List.mem_append.mp hc with hc | hc
+      · exact h.inam c hc ho
+      · simp only [List.mem_singleton] at hc; subst hc; simp at ho
     · intro c hc
       rcases List.mem_append.mp hc with hc | hc
       · exact h.hok c hc
@@ -420,7 +525,18 @@ theorem Inv.unsub {y : Sys} (h : Inv y) (id : Nat) : Inv (unsub y id) := by
           (∀ e ∈ ca, e ∈ y.cache ∧ hasBuf (setClient y { c with sub := .none, inbox := [] }) e.key = true) →
           Inv { setClient y { c with sub := .none, inbox := [] } with lasts := la, cache := ca } := by
         intro la ca hca
-        refine ⟨h.wf, ?_, ?_, ?_, ?_, ?_, by rw [show ({ setClient y { c with sub := .none, inbox := [] } with lasts := la, cache := ca } : Sys).clients = (setClient y { c with sub := .none, inbox := [] }).clients from rfl, setClient_ids]; exact h.ids⟩
+        refine ⟨h.wf, ?_, ?_, ?_, ?_, ?_, by rw [show ({ setClient y { c with sub := .none, inbox := [] } with lasts := la, cache := ca } : Sys).clients = (setClient y { c with sub := .none, inbox := [] }).clients from rfl, setClient_ids]; exact h.ids, ?_, ?_, ?_, h.qnam⟩
+        rotate_left 5
+        · intro d hd
+          rcases hmem d hd with rfl | hd'
+          · exact h.az c hc
+          · exact h.az d hd'
+        · intro d hd ho
+          rcases hmem d hd with rfl | hd'
+          · simp at ho
+          · exact h.inam d hd' ho
+        · intro e he st hst
+          exact h.cnam e (hca e he).1 st hst
         · intro d hd
           rcases hmem d hd with rfl | hd'
           · exact h.hok c hc
@@ -473,10 +589,14 @@ theorem Inv.restore {y : Sys} (h : Inv y) (c : Cat) (hwf : WF c) (hq : y.queue =
           simp [this]
       _ = y.clients := by simp
   rw [hsame]
-  refine ⟨hwf, h.hok, h.exact, ?_, (by intro e he; cases he), (by intro e he; cases he), h.ids⟩
-  intro d hd ho
-  have := hna d hd
-  simp [attached, ho] at this
+  refine ⟨hwf, h.hok, h.exact, ?_, (by intro e he; cases he), (by intro e he; cases he), h.ids, h.az, ?_,
+    (by intro e he; cases he), (by rw [hq]; intro b hb; cases hb)⟩
+  · intro d hd ho
+    have := hna d hd
+    simp [attached, ho] at this
+  · intro d hd ho
+    have := hna d hd
+    simp [attached, ho] at this
 
 /-! ### subscribe -/
 
@@ -499,16 +619,17 @@ theorem snapIdx_ne_zero (k : Key) (c : Cat) : snapIdx k c ≠ 0 := by
 /-- generic step: an unattached client `c` is replaced by an opened `c'`; the cache may grow
     by entries for `c.key` -/
 theorem Inv.attach {y : Sys} (h : Inv y) {c c' : Client} (hc : c ∈ y.clients) (hua : attached c = false)
-    (e : c'.id = c.id) (hk : c'.key = c.key) (hs : c'.sub = .opened)
-    (hok : HOk c'.m) (hex : Exact c'.m)
-    (hsim : Sim c'.m (c'.inbox ++ queueItems c'.key y.queue) (query c'.key y.cat))
+    (e : c'.id = c.id) (hk : c'.key = c.key) (hs : c'.sub = .opened) (ha : c'.authz = c.authz)
+    (hok : HOk c'.m) (hex : FExact c'.authz c'.key c'.m)
+    (hsim : ∃ mu, Rel c'.authz c'.key c'.m mu ∧ Sim mu (c'.inbox ++ queueItems c'.key y.queue) (query c'.key y.cat))
+    (hin : ∀ st ∈ c'.inbox, StepNamed c'.key st)
     (ca : List CacheEnt)
-    (hca : ∀ en ∈ ca, en ∈ y.cache ∨ (en.key = c.key ∧
+    (hca : ∀ en ∈ ca, en ∈ y.cache ∨ (en.key = c.key ∧ (∀ st ∈ en.steps, StepNamed en.key st) ∧
         ∀ e0, Sim ⟨.snap [], [], 0, e0⟩ (en.steps ++ queueItems en.key y.queue) (query en.key y.cat))) :
     Inv (setClient { y with cache := ca } c') := by
   have hself : c' ∈ (setClient { y with cache := ca } c').clients :=
     mem_setClient_self (y := { y with cache := ca }) hc e
-  refine ⟨h.wf, ?_, ?_, ?_, ?_, ?_, by rw [setClient_ids]; exact h.ids⟩
+  refine ⟨h.wf, ?_, ?_, ?_, ?_, ?_, by rw [setClient_ids]; exact h.ids, ?_, ?_, ?_, h.qnam⟩
   · intro d hd
     rcases mem_setClient hd with rfl | ⟨hd', -⟩
     · exact hok
@@ -522,7 +643,7 @@ theorem Inv.attach {y : Sys} (h : Inv y) {c c' : Client} (hc : c ∈ y.clients) 
     · exact hsim
     · exact h.sim d hd' ho
   · intro en hen e0
-    rcases hca en hen with ho | ⟨-, hn⟩
+    rcases hca en hen with ho | ⟨-, -, hn⟩
     · exact h.cache en ho e0
     · exact hn e0
   · intro en hen
@@ -530,6 +651,18 @@ theorem Inv.attach {y : Sys} (h : Inv y) {c c' : Client} (hc : c ∈ y.clients) 
     · exact hasBuf_setClient_mono (y := { y with cache := ca }) h.ids hc e hua (h.cbuf en ho)
     · rw [hasBuf_iff]
       exact ⟨c', hself, by rw [hk, hkey], by simp [attached, hs]⟩
+  · intro d hd
+    rcases mem_setClient hd with rfl | ⟨hd', -⟩
+    · rw [ha, hk]; exact h.az c hc
+    · exact h.az d hd'
+  · intro d hd ho
+    rcases mem_setClient hd with rfl | ⟨hd', -⟩
+    · exact hin
+    · exact h.inam d hd' ho
+  · intro en hen st hst
+    rcases hca en hen with ho | ⟨-, hn, -⟩
+    · exact h.cnam en ho st hst
+    · exact hn st hst
 
 theorem HOk.start {m : Mat} (h : HOk m) : HOk m.start := by
   unfold Mat.start
@@ -540,24 +673,50 @@ theorem HOk.start {m : Mat} (h : HOk m) : HOk m.start := by
     exact ⟨by simp, h.empty, fun _ => hi, by intro acc hh; simp at hh⟩
 
 /-- what the snapshot path delivers to a starting materializer -/
-theorem sim_snapshot_path {c : Client} {q : List Batch} {cat : Cat} (hkc : HOk c.m) (en : CacheEnt) (hek : en.key = c.key)
+theorem sim_snapshot_path {m : Mat} {pre : List Step} {q : List Batch} {cat : Cat} {k : Key} (hkc : HOk m)
+    (hpre : pre = if m.index ≠ 0 then [.nstf] else [])
+    (en : CacheEnt) (hek : en.key = k)
     (hsim : ∀ e0, Sim ⟨.snap [], [], 0, e0⟩ (en.steps ++ queueItems en.key q) (query en.key cat)) :
-    Sim c.m.start ((preamble c ++ en.steps) ++ queueItems c.key q) (query c.key cat) := by
-  rw [← hek]
-  unfold preamble
-  by_cases hi : c.m.index = 0
+    Sim m.start ((pre ++ en.steps) ++ queueItems k q) (query k cat) := by
+  rw [← hek, hpre]
+  by_cases hi : m.index = 0
   · simp only [hi, ne_eq, not_true_eq_false, ↓reduceIte, List.nil_append]
-    have hm : c.m.start = ⟨.snap [], [], 0, c.m.expect⟩ := by
+    have hm : m.start = ⟨.snap [], [], 0, m.expect⟩ := by
       unfold Mat.start
       have hv := hkc.empty hi
-      cases hcm : c.m
+      cases hcm : m
       simp_all
     rw [hm]; exact hsim _
   · simp only [ne_eq, hi, not_false_eq_true, ↓reduceIte, List.cons_append, List.nil_append]
-    have hr : c.m.start.h = .resume := by simp [Mat.start, hi]
-    have he : c.m.start.expect = c.m.expect := rfl
+    have hr : m.start.h = .resume := by simp [Mat.start, hi]
+    have he : m.start.expect = m.expect := rfl
     refine Sim.nstf hkc.start hr ?_
     rw [he]; exact hsim _
+
+/-- the twin of a subscriber that starts through the snapshot path: a materializer holding the
+    direct-query result the subscriber's view is the filter of -/
+def startTwin (m : Mat) : Mat := { m.start with view := if m.index = 0 then [] else m.expect }
+
+theorem startTwin_rel {a : Authz} {k : Key} {m : Mat} (hk : HOk m) (hex : FExact a k m) : Rel a k m.start (startTwin m) := by
+  unfold startTwin Mat.start
+  by_cases hi : m.index = 0
+  · simp only [hi, ↓reduceIte]
+    refine ⟨Or.inr ⟨[], rfl, rfl, fun e he => by cases he⟩, ?_, by simp [hi]⟩
+    rw [hk.empty hi]; exact IsFilterOf.nil a k
+  · simp only [hi, ↓reduceIte]
+    exact ⟨Or.inl ⟨Or.inr rfl, Or.inr rfl, fun _ => rfl⟩, hex hi, Iff.rfl⟩
+
+theorem startTwin_hok {m : Mat} (hk : HOk m) : HOk (startTwin m) := by
+  unfold startTwin Mat.start
+  by_cases hi : m.index = 0
+  · simp only [hi, ↓reduceIte]
+    exact ⟨by simp, fun _ => rfl, by intro hh; simp at hh, fun _ _ => rfl⟩
+  · simp only [hi, ↓reduceIte]
+    exact ⟨by simp, fun h0 => absurd h0 hi, fun _ => hi, by intro acc hh; simp at hh⟩
+
+theorem startTwin_start (m : Mat) : (startTwin m).start = startTwin m := by
+  unfold startTwin Mat.start
+  by_cases hi : m.index = 0 <;> simp [hi]
 
 theorem sim_freshEnt {y : Sys} (h : Inv y) (hq : y.queue = []) (k : Key) (last : Option Item)
     (ht : (freshEnt k y.cat last).tail = []) (e0 : View) :
@@ -571,6 +730,26 @@ theorem sim_freshEnt {y : Sys} (h : Inv y) (hq : y.queue = []) (k : Key) (last :
   simp only [List.nil_append, List.flatMap_map]
   have := snapshot_exact k h.wf
   simpa [List.flatMap_id'] using this
+
+theorem freshEnt_named (k : Key) (c : Cat) (last : Option Item) (ht : (freshEnt k c last).tail = []) :
+    ∀ st ∈ (freshEnt k c last).steps, StepNamed k st := by
+  intro st hst
+  unfold CacheEnt.steps at hst
+  rw [ht] at hst
+  simp only [freshEnt, List.map_nil, List.append_nil, List.map_map] at hst
+  rcases List.mem_append.mp hst with hst | hst
+  · obtain ⟨evs, hevs, rfl⟩ := List.mem_map.mp hst
+    exact snapshotItems_named k c evs hevs
+  · simp only [List.mem_singleton] at hst
+    subst hst
+    trivial
+
+theorem preamble_named (c : Client) : ∀ st ∈ preamble c, StepNamed c.key st := by
+  intro st hst
+  unfold preamble at hst
+  split at hst
+  · simp only [List.mem_singleton] at hst; subst hst; trivial
+  · cases hst
 
 theorem Inv.subscribe {y : Sys} (h : Inv y) (id : Nat) (hcl : CleanSub y id) : Inv (subscribe y id) := by
   unfold CV.Stream.subscribe
@@ -588,21 +767,44 @@ theorem Inv.subscribe {y : Sys} (h : Inv y) (id : Nat) (hcl : CleanSub y id) : I
       · exact absurd hcl ha
       simp only [ha, Bool.false_eq_true, ↓reduceIte, hnr]
       have hkc := h.hok c hc
-      have hex' : Exact c.m.start := h.exact c hc
+      have hex := h.exact c hc
+      have hex' : FExact c.authz c.key c.m.start := hex
+      have htw : ∀ (en : CacheEnt), en.key = c.key →
+          (∀ e0, Sim ⟨.snap [], [], 0, e0⟩ (en.steps ++ queueItems en.key y.queue) (query en.key y.cat)) →
+          ∃ mu, Rel c.authz c.key c.m.start mu ∧
+            Sim mu ((preamble c ++ en.steps) ++ queueItems c.key y.queue) (query c.key y.cat) := by
+        intro en hek hsim
+        refine ⟨startTwin c.m, startTwin_rel hkc hex, ?_⟩
+        have := sim_snapshot_path (m := startTwin c.m) (pre := preamble c) (q := y.queue) (cat := y.cat) (k := c.key)
+          (startTwin_hok hkc) (by
+            unfold preamble startTwin Mat.start
+            by_cases hi : c.m.index = 0 <;> simp [hi]) en hek hsim
+        rw [startTwin_start] at this
+        exact this
       cases hf : y.cache.find? (fun e => e.key = c.key) with
       | some en =>
         simp only
         have hen : en ∈ y.cache := List.mem_of_find?_eq_some hf
         have hek : en.key = c.key := by simpa using List.find?_some hf
-        exact h.attach (c' := openSub c (preamble c ++ en.steps)) hc ha' rfl rfl rfl hkc.start hex'
-          (sim_snapshot_path hkc en hek (h.cache en hen)) y.cache (fun e he => Or.inl he)
+        exact h.attach (c' := openSub c (preamble c ++ en.steps)) hc ha' rfl rfl rfl rfl hkc.start hex'
+          (htw en hek (h.cache en hen)) (by
+            intro st hst
+            rcases List.mem_append.mp hst with hst | hst
+            · exact preamble_named c st hst
+            · show StepNamed c.key st
+              rw [← hek]; exact h.cnam en hen st hst) y.cache (fun e he => Or.inl he)
       | none =>
         simp only
         rw [hf] at htail
         simp only [Option.isSome_none, Bool.false_eq_true, false_or] at htail
         have hnew := sim_freshEnt h hq c.key (lookup? c.key y.lasts) htail
+        have hnam := freshEnt_named c.key y.cat (lookup? c.key y.lasts) htail
         refine h.attach (c' := openSub c (preamble c ++ (freshEnt c.key y.cat (lookup? c.key y.lasts)).steps))
-          hc ha' rfl rfl rfl hkc.start hex' (sim_snapshot_path hkc _ rfl hnew) _ ?_
+          hc ha' rfl rfl rfl rfl hkc.start hex' (htw _ rfl hnew) (by
+            intro st hst
+            rcases List.mem_append.mp hst with hst | hst
+            · exact preamble_named c st hst
+            · exact hnam st hst) _ ?_
         intro e he
         by_cases ht : y.ttl
         · simp only [ht, ↓reduceIte] at he
@@ -610,7 +812,7 @@ theorem Inv.subscribe {y : Sys} (h : Inv y) (id : Nat) (hcl : CleanSub y id) : I
           · exact Or.inl he
           · simp only [List.mem_singleton] at he
             subst he
-            exact Or.inr ⟨rfl, hnew⟩
+            exact Or.inr ⟨rfl, hnam, hnew⟩
         · simp only [ht, Bool.false_eq_true, ↓reduceIte] at he
           exact Or.inl he
 
